@@ -2749,6 +2749,16 @@ BUFR_Dataset  *bufr_decode_message_subsets( BUFR_Message *msg, BUFR_Tables *tabl
                      {
                      dts->data_flag |= BUFR_FLAG_INVALID;                    
                      }
+/*
+ * in compressed data a delayed replication factor is the same in every subset (94.6.3):
+ * the subsets are read side by side and must keep the same length
+ */
+                  if ((tmplist != NULL)&&(i > 0)&&(lst_count( tmplist ) != lst_count( bseq[0]->list )))
+                     {
+                     dts->data_flag |= BUFR_FLAG_INVALID;
+                     bseq[i]->list = tmplist;
+                     tmplist = NULL;
+                     }
                   if (tmplist == NULL)
                      {
 //                     bufr_free_dataset( dts );
